@@ -17,7 +17,7 @@ FRec(op, d, a, b, k) == [op |-> op, d |-> d, a |-> a, b |-> b, k |-> k,
                          e |-> fr'[d].e, m |-> fr'[d].m, nz |-> fr'[d].nz, z |-> fr'[d].z]
 \* group step record
 GRec(op, d, a, b, x, na, ng, odd, sg) == [op |-> op, d |-> d, a |-> a, b |-> b, x |-> x, na |-> na, ng |-> ng, odd |-> odd, sg |-> sg,
-                                          f |-> gr'[d].f, inf |-> FmIsZero(gr'[d].f)]
+                                          f |-> gr'[d].f, inf |-> FmIsZero(gr'[d].f), reuse |-> op \in ReuseOps]
 
 \* every step carries its own prediction, so a line is checked step by step
 Emit(tag, rec) == /\ h' = Append(h, rec)
